@@ -16,9 +16,9 @@ working on UTF-16 code units", i.e. the string is encoded with `Fix16.utf16` and
 
 `validates defs fuel s j : Option Bool` — `none` is "fuel exhausted".  Every nested schema costs one
 unit of fuel, so the definition is structural on the fuel alone; the keyword semantics `validKw` is
-a plain case analysis that receives the recursive call as a parameter.  All keywords of one schema
-object are evaluated (no short circuit), so `some true` means *every* keyword holds:
-`validates_true_iff`.  References are resolved in `defs`; a dangling reference validates nothing
+a plain case analysis that receives the recursive call as a parameter.  `some true` means *every*
+keyword holds, `some false` that *some* keyword definitely fails (`Lemmas/JsonSchemaValid`); both
+verdicts are stable under more fuel (`validates_mono`).  References are resolved in `defs`; a dangling reference validates nothing
 (`some false`; the `jsonschema` library raises an error there — C11a proves it does not happen).
 
 Modelled, not verified: these semantics are my reading of the JSON Schema 2019-09 specification for
@@ -71,13 +71,15 @@ def hasType : JType → Json → Bool
   | .boolean, .bool _ => true
   | _, _ => false
 
-/-- strict conjunction: `none` (out of fuel) anywhere gives `none` -/
+/-- conjunction of keyword verdicts: one definite rejection decides (`some false`), whatever the
+others say; otherwise an exhausted branch (`none`) leaves the verdict open -/
 def allO : List (Option Bool) → Option Bool
   | [] => some true
-  | none :: _ => none
-  | some b :: r => match allO r with
-    | none => none
-    | some b' => some (b && b')
+  | some false :: _ => some false
+  | some true :: r => allO r
+  | none :: r => match allO r with
+    | some false => some false
+    | _ => none
 
 /-- number of `some true` answers, `none` if any is `none` -/
 def countO : List (Option Bool) → Option Nat
